@@ -254,3 +254,13 @@ func (w *vfWorld) collection(num int32) *schema.CollectionDoc {
 }
 
 func context0() iface.OrdaContext { return context.NewOrdaContext(gocontext.TODO(), "vf") }
+
+func (w *vfWorld) pushPullCtx(ctx gocontext.Context, collection, cuid string, ppp *model.PushPullPack) (*model.PushPullPack, error) {
+	msg := &model.PushPullMessage{Header: model.NewMessageHeader(model.RequestType_PUSHPULLS), Collection: collection, Cuid: cuid,
+		PushPullPacks: []*model.PushPullPack{ppp}}
+	res, err := w.svc.ProcessPushPull(ctx, msg)
+	if err != nil || res == nil || len(res.PushPullPacks) == 0 {
+		return nil, err
+	}
+	return res.PushPullPacks[0], nil
+}
